@@ -12,13 +12,14 @@ META = dict(
 def run(ctx):
     # EagerFirst=FALSE: the loop waits for the first byte of every request (the code as it is now);
     # TRUE: a new connection turns active at once (the configuration before the C14 repair)
-    base = dict(CONNS="{c1, c2}", LISTENERS="{l1}", MAXREQ=2, COS="FALSE", RMU="FALSE", FLUSH="TRUE", ATOMIC="TRUE", DRAINED="TRUE", FRESH="TRUE",
+    base = dict(CONNS="{c1, c2}", LISTENERS="{l1}", MAXREQ=2, COS="FALSE", RMU="FALSE", MIXED="FALSE", FLUSH="TRUE", ATOMIC="TRUE", DRAINED="TRUE", FRESH="TRUE",
                 EAGER="FALSE", SPEC="Spec", SYMM="SYMMETRY Symm", EXTRA="INVARIANT InvAnswered\nINVARIANT NoActiveClosed")
     live = dict(base, SPEC="FairSpec", SYMM="", EXTRA=base["EXTRA"] + "\nPROPERTY Terminates")
     runs = []
     if ctx.quick:
         runs.append(dict(base, CONNS="{c1}", FRESH="FALSE"))
         runs.append(dict(base, CONNS="{c1}", FRESH="FALSE", RMU="TRUE"))
+        runs.append(dict(base, MAXREQ=1, FRESH="FALSE", MIXED="TRUE"))
         runs.append(dict(base, COS="TRUE", MAXREQ=1, LISTENERS="{l1, l2}"))
         runs.append(dict(live, CONNS="{c1}"))
     else:
@@ -27,6 +28,7 @@ def run(ctx):
         runs.append(dict(base, COS="TRUE", LISTENERS="{l1, l2}", MAXREQ=1))
         runs.append(dict(base, EAGER="TRUE", FRESH="FALSE"))
         runs.append(dict(base, RMU="TRUE", FRESH="FALSE"))
+        runs.append(dict(base, MIXED="TRUE", FRESH="FALSE"))
         runs.append(dict(live, MAXREQ=1))
         runs.append(dict(live, CONNS="{c1}", LISTENERS="{l1, l2}"))
     for c in runs:
